@@ -236,7 +236,7 @@ static ActOut run_action(const std::string &action, int crash_at, int fault_nth,
     fclose(mo); fclose(me);
     if (ob) { o.out.assign(ob, on); free(ob); } if (eb) { o.err.assign(eb, en); free(eb); }
     // stdio streams abandoned by exit()/crash: their buffered bytes never reached the (simulated) kernel
-    for (auto &b : g_bufs) (void)b; g_stream_fd.clear();
+    g_stream_fd.clear();
     C.crash_at = -1;
     o.exit_code = C.exit_code; o.calls = C.calls; o.trace = C.trace; o.fault_fired = C.fault_fired; o.wcalls = C.wcalls;
     return o;
